@@ -877,6 +877,15 @@ class Manager:
                 self.fire(event.child('failure', event, err), *event.channels)
 
             self.fire(exception(*err, handler=None, fevent=event))
+
+            # The generator that raised is finished, and so is the wait/call
+            # generator it was resumed from (if any): the event must not
+            # wait for them any longer.
+            event._handler_failed = True
+            event.waitingHandlers -= 1 if parent is None else 2
+            if event.waitingHandlers <= 0:
+                event.waitingHandlers = 0
+                self._eventDone(event, err)
         finally:
             self._currently_handling = None
 
